@@ -102,6 +102,13 @@ def split_cats(case):
     return list(case["pending"][0::2]), list(case["pending"][1::2])
 
 
+def bname(case):
+    """name of the second test file: pytest collects `test_*.py` and `*_test.py` alike (derived from the case, no random draw)"""
+    if case.get("force_two_files"):
+        return "test_b.py"
+    return "b_test.py" if int(common.sha(json.dumps(case, sort_keys=True))[:2], 16) % 3 == 0 else "test_b.py"
+
+
 def project_b(case):
     lines = ["from inline_snapshot import snapshot", "import pytest", ""] + (NOREPR if case.get("hasrepr") else [])
     for c in split_cats(case)[1]:
@@ -252,7 +259,7 @@ def run_impl(case):
     src_b = None
     if split_cats(case)[1]:
         src_b = project_b(case)
-        files["test_b.py"] = src_b
+        files[bname(case)] = src_b
     if case["xfail"] and not case.get("plain"):
         files["test_zz_module_xfail.py"] = MODULE_XFAIL
     if case.get("orphan"):
@@ -263,12 +270,12 @@ def run_impl(case):
     after = r["files"].get("test_a.py", b"").decode()
     if src_b is not None:
         # two files: judged as one text (the test names are unique)
-        after = after + SEP + r["files"].get("test_b.py", b"").decode()
+        after = after + SEP + r["files"].get(bname(case), b"").decode()
         src = src + SEP + src_b
     obs = {"rc": r["rc"], "outcomes": r["outcomes"], "changed": after != src, "after": after,
            "usage_error": r["rc"] == 4 and after == src, "traceback": "Traceback" in r["stderr"],
            "stderr": r["stderr"][-1500:], "stdout_tail": r["stdout"][-1500:],
-           "other_files": sorted(k for k in r["files"] if k not in ("test_a.py", "test_b.py", "pyproject.toml", "test_zz_module_xfail.py", "test_zy_helper.py", ORPHAN) and not k.startswith("probe")),
+           "other_files": sorted(k for k in r["files"] if k not in ("test_a.py", "test_b.py", "b_test.py", "pyproject.toml", "test_zz_module_xfail.py", "test_zy_helper.py", ORPHAN) and not k.startswith("probe")),
            "orphan_survived": r["files"].get(ORPHAN) == b"orphan",
            "probe": sorted({v.decode() for k, v in r["files"].items() if k.startswith("probe_")}),
            "probex": sorted({v.decode() for k, v in r["files"].items() if k.startswith("probex_")})}
@@ -289,11 +296,11 @@ def run_impl(case):
     obs["xfail_changed"] = xf_changed
     plain = plain_cli(case)
     if plain is not None:
-        obs["three_way"] = three_way(src, plain)          # src: one file, or two joined by SEP
+        obs["three_way"] = three_way(src, plain, bname(case))          # src: one file, or two joined by SEP
     return obs
 
 
-def three_way(src, cats):
+def three_way(src, cats, b="test_b.py"):
     """Example.run_inline / Example.run_pytest on the same project (C19)"""
     import contextlib
     import io
@@ -308,14 +315,14 @@ def three_way(src, cats):
         try:
             # run_inline executes the tests in this process: their relative writes (the probe files) go to a scratch directory
             with contextlib.redirect_stdout(sink), contextlib.redirect_stderr(sink), _scratch_cwd():
-                ex = Example(dict(zip(("test_a.py", "test_b.py"), src.split(SEP))))
+                ex = Example(dict(zip(("test_a.py", b), src.split(SEP))))
                 if name == "run_inline":
                     cap = _Capture()
                     new = ex.run_inline([flag] if cats else [], raises=_Anything(), reported_categories=cap)
                     out["inline_reported"] = cap.seen
                 else:
                     new = ex.run_pytest([flag] if cats else [], returncode=_Anything())
-            out[name] = new.files.get("test_a.py") if SEP not in src else new.files.get("test_a.py", "") + SEP + new.files.get("test_b.py", "")
+            out[name] = new.files.get("test_a.py") if SEP not in src else new.files.get("test_a.py", "") + SEP + new.files.get(b, "")
         except BaseException as e:  # noqa: BLE001
             out[name] = "EXC " + type(e).__name__ + ": " + str(e)[:200]
     return out
